@@ -156,10 +156,10 @@ def run_world_case(case, ctx, prop):
 	from gambit.query import query
 	W = Wd.get_world(ctx, case['world'], 'c03world')
 	try:
-		db = W.load_db()
+		db = W.load_db(case.get('multi_set'))
 	except Exception as e:
 		raise Violation('exception', f'load_from_dir raised {type(e).__name__}: {e}', case)
-	classes = set(['world'])
+	classes = set(['world'] + (['second_genome_set_in_file'] if case.get('multi_set') else []))
 	nontrivial = False
 	try:
 		qs = [np.array(s, dtype=W.dtype) for s in W.query_sigs]
